@@ -34,9 +34,21 @@ REPETITIVE = (
 )
 
 
+# pairs of spellings whose node classes are parent and child (TryCast < Cast, ConcatWs < Concat, SafeDivide ...): the two trees
+# differ ONLY in the class of one node, which the matcher must not treat as the same type
+CLASS_SWAPS = (("TRY_CAST(a AS INT)", "CAST(a AS INT)"), ("CONCAT_WS(a, b, c)", "CONCAT(a, b, c)"), ("APPROX_QUANTILE(a, 0.5)", "QUANTILE(a, 0.5)"), ("a ILIKE b", "a LIKE b"), ("a <= b", "a < b"), ("COUNT(a)", "SUM(a)"), ("a / b", "a * b"))
+SWAP_CONTEXTS = ("SELECT {e} AS x FROM t", "SELECT b FROM t WHERE {e} = 1", "SELECT {e}, {e}, b FROM t GROUP BY b", "SELECT b FROM (SELECT {e} AS b FROM t) AS s ORDER BY b")
+
+
 @st.composite
 def cases(draw, depth):
     k = draw(st.integers(0, 9))
+    if k == 9 and draw(st.booleans()):
+        a, b = draw(st.sampled_from(CLASS_SWAPS))
+        if draw(st.booleans()):
+            a, b = b, a
+        ctx = draw(st.sampled_from(SWAP_CONTEXTS))
+        return {"source": ctx.format(e=a), "mode": "independent", "script": [], "other": ctx.format(e=b), "matchings": [], "opts": draw(st.sampled_from(({}, {}, {"f": 0.3, "t": 0.3})))}
     if k < 3:
         src = draw(st.sampled_from(REPETITIVE))
     else:
